@@ -63,6 +63,10 @@ CHECKS = {
    technique="TLC: operator table as data (AnkoGrammar.tla) with UnparseMin/UnparseFull and an independent declarative parser ParseRef, self-consistency checked on every tree; both spellings of every tree replayed through the real parser (tree equality, value equality, 18 statement positions); AnkoLiteral.tla computes literal denotations with Int64",
    text="The grammar's meaning is specified independently of the yacc file as a precedence/associativity table; TLC proves the table self-consistent on all expression trees up to depth 2 (depth 3 over level representatives in thorough) including every binary/unary operator pair, and the generated parser must build exactly the specified tree from the minimally and the fully parenthesised spelling, evaluate both to the same value and agree in every statement position. Integer literal denotations are computed exactly in TLA+ (edges of int64 in decimal, hex, binary), string escapes by a transducer.",
    note="Trusted: TLC; float literal values are a primitive supplied by the case generator (correctly rounded conversion); yacc conflict resolution is observed, not derived. Bounds: ~17.7k trees (quick), 165 literal spellings. One recorded deviation: `in` is right-associative (pinned by the repository's own test)."),
+ "C16": dict(level="model_checking", design="5 (C16), 3.5",
+   technique="TLC model checking (safety + liveness) of AnkoChan.tla pipelines under every interleaving, AnkoChanSeq.tla for the one-goroutine error forms; replay of every sequential program and repeated perturbed runs of every pipeline configuration on the real VM",
+   text="The pipeline model (goroutines over buffered/unbuffered Go channels with rendezvous) is explored exhaustively for every configuration: FIFO/exactly-once per channel, delivery of everything, termination under weak fairness, no deadlock, with a value-losing spec mutant as negative control. The real interpreter runs each configuration many times under hook-injected schedule perturbation and several GOMAXPROCS and must always return the model's unique outcome (sequence and element type); all one-goroutine operation sequences (send on closed, double close, receive on closed, two-value receive) are replayed observation by observation, with and without a cancellable context.",
+   note="Trusted: Go channel semantics as documented. Real schedules are sampled, not enumerated. Bounds: 0-2 (thorough 3) stages, capacity 0-2 (3), up to 3 (4) items, 3 consumer modes, 3 element types; sequences up to length 5 (6)."),
 # <<ADD>>
 }
 
